@@ -596,7 +596,10 @@ class PoolTheory(Theory):
         if name == "cast":
             return [(st, pos[1])]
         if name == "isinstance":
-            raise Unsupported("isinstance")
+            v, c = pos_d
+            if isinstance(v, RefV) and isinstance(c, ClassV) and c.name == "Exception":
+                return [(st, BoolV(z3.And(v.t != NONE, z3.Select(z3.Const("is_exception_object", A_RB), v.t))))]
+            raise Unsupported("isinstance form")
         if name == "create_task":
             coro = kws.get("coro", pos[0] if pos else None)
             nm = kws.get("name")
@@ -983,6 +986,12 @@ class PoolTheory(Theory):
         p = PView(st)
         self.set_ghost(st, "creq", st.me, p.is_spawner(st.me))
 
+    def raise_opaque(self, st, fr, v: RefV) -> ExcV:
+        """`raise <object>`: only exception objects produced by user code reach such a statement (gather results)"""
+        e = ExcV("UserExc", [], ref=v.t)
+        e.origin = "user"
+        return e
+
     def delivered_cancel(self) -> ExcV:
         e = ExcV("CancelledError", [])
         e.origin = "delivered"
@@ -1125,7 +1134,10 @@ class PoolTheory(Theory):
             s1.assume(z3.Not(self.ghost(s1, "creq", s1.me)))
         if getattr(self, "after_gather_ok", None) is not None:
             self.after_gather_ok(s1, fr, label)
-        out.append((s1, RefV(fresh("results", Ref))))
+        from pyvc.theory import OpaqueCollV
+
+        # the results: with return_exceptions an element may be the exception object a child raised (user origin)
+        out.append((s1, OpaqueCollV("gather results")))
         for s2, b in ip.branch(st.fork(), re.t, "return_exceptions"):
             if b:
                 continue
@@ -1148,8 +1160,16 @@ class PoolTheory(Theory):
             return c.pred
         if isinstance(c, SetV):
             return lambda t, c=c: c.has(t)
-        if isinstance(c, TupleV) and not c.items:
-            return lambda t: z3.BoolVal(False)
+        if isinstance(c, TupleV):
+            # a tuple/list display collecting awaitables: single objects and starred collections
+            preds = []
+            for item in c.items:
+                inner = self.ip.deref(st, item.v) if isinstance(item, StarV) else self.ip.deref(st, item)
+                if isinstance(inner, RefV):
+                    preds.append(lambda t, r=inner.t: t == r)
+                else:
+                    preds.append(self.coll_pred(st, inner))
+            return lambda t, preds=preds: z3.Or([p_(t) for p_ in preds]) if preds else z3.BoolVal(False)
         raise Unsupported(f"gather(*{type(c).__name__})")
 
     # --- comprehensions -----------------------------------------------------------------------------------------
